@@ -16,6 +16,9 @@ prop(
         dict(run="^TestPropWorkers$",
              quick=dict(checks=40, shards=4, timeout=600),
              thorough=dict(checks=608, shards=8, timeout=5400)),
+        dict(run="^TestPropQueueing$",
+             quick=dict(checks=2, shards=2, timeout=600),
+             thorough=dict(checks=24, shards=4, timeout=3600)),
         dict(run="^TestPropRace$",
              quick=dict(checks=32, shards=4, timeout=900),
              thorough=dict(checks=304, shards=8, timeout=7200)),
@@ -28,7 +31,10 @@ prop(
          "layers 2/3: one evaluation = one invocation of the (race-instrumented) binary with --workers in {1,2,3,7,16,64} x "
          "GOMAXPROCS in {1,2,16} (6 settings per input quick, all 18 thorough; (1,1) is canonical), two fifths of the inputs online "
          "against a fake Prometheus (1-2 servers; in three quarters of them the main URI answers 504 for a drawn subset of query "
-         "expressions and a failover URI answers everything), a third with an extra 40-160 rule group or the same volume spread over 10-40 files with recording rules repeated across files; prometheus{} blocks carry include/exclude path filters and tags (servers on closed ports for --offline inputs). A Go runtime 'fatal error:' in any run is a violation. Non-trivial: >= 8 reports, >= 2 files with reports, >= 1 duplicate group, >= 2 reports with "
+         "expressions and a failover URI answers everything), a third with an extra 40-160 rule group or the same volume spread over 10-40 files with recording rules repeated across files; prometheus{} blocks carry include/exclude path filters and tags (servers on closed ports for --offline inputs). A Go runtime 'fatal error:' in any run is a violation. "
+         "Queueing layer (a handful of cases): 48-64 rules with distinct queries against a fake that answers at once, behind "
+         "rateLimit 7-10 / timeout 2s / required, --workers 1, 8, 64; a difference counts only if the fake served every request "
+         "within 300 ms and the harness never stalled longer than that, else the case is inconclusive (counted). Non-trivial: >= 8 reports, >= 2 files with reports, >= 1 duplicate group, >= 2 reports with "
          "equal (path, first line). distinct = distinct report multisets (layer 1) / distinct inputs (layers 2/3).",
     level_text="Generated-input search. Layer 1 owns the schedule of the only cross-goroutine channel (the report stream) and "
                "demands byte-identical console/JSON output, CountBySeverity and duplicate folding for every drawn arrival order "
